@@ -87,25 +87,3 @@ func TestSpecVectors(t *testing.T) {
 	}
 	rec.NonTrivial("spec_vectors")
 }
-
-// A DLEQ scalar (e, s or r) followed by extra bytes is not the scalar of the proof any more, yet ParseDLEQ
-// (secp256k1.PrivKeyFromBytes) silently truncates to the first 32 bytes, so the changed field still verifies.
-func TestRegressOverlongScalar(t *testing.T) {
-	const sig = "dleq_malformed_encoding_accepted|overlong_appended"
-	A := vecKey(t)
-	rec.Eval()
-	rec.NonTrivial("regress_overlong_scalar")
-	for _, extra := range []string{"00", "ff", "0102030405060708"} {
-		if nut12.VerifyBlindSignatureDLEQ(cashu.DLEQProof{E: vecE + extra, S: vecS}, A, vecB_, vecC_) {
-			violate(t, sig, "blind-signature DLEQ verifies with e = <e>||%s (%d bytes)", extra, 32+len(extra)/2)
-		}
-		if nut12.VerifyBlindSignatureDLEQ(cashu.DLEQProof{E: vecE, S: vecS + extra}, A, vecB_, vecC_) {
-			violate(t, sig, "blind-signature DLEQ verifies with s = <s>||%s (%d bytes)", extra, 32+len(extra)/2)
-		}
-		p := vecProof()
-		p.DLEQ.R += extra
-		if nut12.VerifyProofDLEQ(p, A) {
-			violate(t, sig, "proof DLEQ verifies with r = <r>||%s (%d bytes)", extra, 32+len(extra)/2)
-		}
-	}
-}
